@@ -1451,10 +1451,16 @@ def inj_reference(cx: Ctx) -> Planted:
 
 
 def inj_import(cx: Ctx) -> Planted:
+    def respell(imp: Import) -> None:
+        # the SAME file under another spelling of its path is still the same file
+        if cx.coin():
+            imp.spelling = cx.one(["./", "./", "././", ".//"]) + imp.file.filename
+
     variant = cx.one(["self", "self", "cycle2", "cycle2", "cycle3", "duplicate", "duplicate"])
     if variant == "self":
         f = cx.file()
         imp = Import(f, cx.fresh(S.AS_WORDS) if cx.coin() else None)
+        respell(imp)
         cx.put(f, imp)
         return Planted("import", "self", f, [("import", imp)], depth=0)
     if variant == "duplicate":
@@ -1465,6 +1471,7 @@ def inj_import(cx: Ctx) -> Planted:
         imp2 = Import(imp.file, other_as)
         if imp.as_name is not None and cx.coin() and imp.file.proto not in [x.name for x in f.items]:
             imp2.as_name = None  # `import "x"` next to `import y "x"`
+        respell(imp2)
         cx.put(f, imp2)
         return Planted("import", "duplicate", f, [("import", imp), ("import", imp2)], depth=0)
     # cycles: the edge back is planted in a (transitively) imported file
@@ -1478,6 +1485,7 @@ def inj_import(cx: Ctx) -> Planted:
         chain.append((g, imp_g))
         g = imp_g.file
     back = Import(f, cx.fresh(S.AS_WORDS) if cx.coin(1, 3) else None)
+    respell(back)
     cx.put(g, back)
     # compiled from f (from elsewhere a second, unrelated path could close another cycle first)
     p = Planted("import", f"cycle{len(chain) + 1}", g, [("import", back)], depth=0, main=f)
